@@ -20,7 +20,8 @@
  *   LC TMR <rc> <requeued>           ... returned (requeued: the query left its connection)
  *   LC TX s<k> <status>              handle_conn_error -> ares_close_connection
  *   LC TE <qid> <status>             ares_metrics_record = entry of end_query
- *   LC TP <rc> <nodes> <v4>          ares_parse_into_addrinfo in host_callback
+ *   LC TP <rc> <nodes> <v4> <v6>     ares_parse_into_addrinfo in host_callback (ai has nodes / an
+ *                                    IPv4 node / an IPv6 node afterwards)
  *   LC TR <rc>                       ares_parse_ptr_reply_dnsrec in addr_callback
  *   LC TK / LC TKE                   ares_check_cleanup_conns entered / returned (ares_cancel,
  *                                    ares_process_fds); the CLOSE lines in between are its work
@@ -163,12 +164,16 @@ ares_status_t __wrap_ares_parse_into_addrinfo(const ares_dns_record_t *dnsrec,
   if (sim_lctrace() && cname_only_is_enodata) { /* host_callback; the legacy parsers pass 0 */
     const struct ares_addrinfo_node *n;
     int                              v4 = 0;
+    int                              v6 = 0;
     for (n = ai->nodes; n != NULL; n = n->ai_next) {
       if (n->ai_family == AF_INET) {
         v4 = 1;
       }
+      if (n->ai_family == AF_INET6) {
+        v6 = 1;
+      }
     }
-    sim_ev("LC TP %d %d %d", (int)st, ai->nodes != NULL ? 1 : 0, v4);
+    sim_ev("LC TP %d %d %d %d", (int)st, ai->nodes != NULL ? 1 : 0, v4, v6);
   }
   return st;
 }
